@@ -265,7 +265,10 @@ class Run:
               "violations": len(self.violations)}
         os.makedirs(os.path.join(VERIF, "evidence"), exist_ok=True)
         json.dump(ev, open(os.path.join(VERIF, "evidence", "%s.json" % self.prop), "w"), indent=1, default=str)
-        shutil.rmtree(self.scratch, ignore_errors=True)
+        if not os.environ.get("VERIF_KEEP"):
+            shutil.rmtree(self.scratch, ignore_errors=True)
+        else:
+            print("scratch kept:", self.scratch)
         print("%s %s: obligations %d/%d, cases %d, violations %d, %.1fs" % (
             self.prop, self.tier, n_ok, n_obl, cov.get("evaluations", 0), len(self.violations), time.time() - self.t0))
         return 1 if self.violations else 0
